@@ -30,7 +30,10 @@ CFG = dict(
                 "bound. Destination-state independence: one destination object (image, any_image holding this or another "
                 "alternative, view of a recycled image) is reused over shrinking, growing, equal and mixed size sequences "
                 "through read_image (all devices), read_and_convert_image, any_image read and read_view, and must equal a "
-                "read of the same bytes into a fresh image after every step. Observation of bounded executions only: sizes above the grid, other pixel types and other "
+                "read of the same bytes into a fresh image after every step. Delivery independence: the read-back of the "
+                "sweeps alternates between the written stream / file name and streams that deliver the bytes in pieces, "
+                "and per type a 30-180 KB file and two small ones are read through get areas refilled 1/2/7/64/4096/seeded "
+                "bytes at a time, a std::ifstream and a std::stringstream filled by write, against a one-piece istringstream. Observation of bounded executions only: sizes above the grid, other pixel types and other "
                 "library versions are not covered."),
     level_note=("trusts the harness's per-pixel comparison and g++ 12/ASan; the third-party codecs are the installed "
                 "system libraries; organisations that a writer rejects at compile time are covered by instantiation "
@@ -62,7 +65,8 @@ CFG = dict(
            for k, name in PROBES],
     runs=[run("c12_p%d" % k, shards=sh, min_cases={"quick": fl, "thorough": fl}, max_restarts=200)
           for k, _, sh, fl in PARTS],
-    require_obs=["reuse.read_image", "reuse.read_and_convert_image", "reuse.any_image", "reuse.read_view", "reuse.bits",
+    require_obs=["delivery.frag1", "delivery.frag7", "delivery.frag4096", "delivery.frag-seeded", "delivery.ifstream", "delivery.stringstream-written",
+                 "delivery.file-over-64KB", "delivery.file-over-8KB", "reuse.read_image", "reuse.read_and_convert_image", "reuse.any_image", "reuse.read_view", "reuse.bits",
                  "reuse.order.shrinking", "reuse.order.growing", "reuse.order.equal", "reuse.order.mixed", "sink.ostream", "sink.FILEptr", "sink.filename", "org.planar", "org.planar-stepped", "org.subsampled",
                  "org.raw-padded", "org.rot90", "org.bits.subview", "org.bits.subsampled", "tiffcfg.tile16-lzw",
                  "tiffcfg.tile32-none", "tiffcfg.strip-deflate", "tiffcfg.strip-packbits"],
